@@ -13,6 +13,7 @@ import (
 	"time"
 
 	"github.com/flant/kube-client/fake"
+	"github.com/flant/kube-client/manifest"
 
 	"github.com/flant/shell-operator/pkg/hook/task_metadata"
 	htypes "github.com/flant/shell-operator/pkg/hook/types"
@@ -66,12 +67,18 @@ func c04Delays(c *Case, r *Run) {
 
 // ================================================================ part 2: the real operator
 
-type c04Binding struct {
+type c04Binding struct { // a schedule binding
 	Name    string
-	Num     int // interned binding name
 	Crontab string
 	AF      bool
 	Group   int
+}
+
+type c04KBinding struct { // a kubernetes binding (ConfigMaps labelled verif=<Name> in the case's namespace)
+	Name  string
+	AF    bool
+	Group int
+	EOS   bool // executeHookOnSynchronization
 }
 
 type c04Hook struct {
@@ -80,6 +87,7 @@ type c04Hook struct {
 	OnStartup int // 0 = none, else the order
 	Queue     int // 0 = main, 1 = q1, …
 	Bindings  []c04Binding
+	KBindings []c04KBinding
 }
 
 func c04QueueName(n int) string {
@@ -96,7 +104,15 @@ func c04GroupName(g int) string {
 	return "g" + strconv.Itoa(g)
 }
 
-func (h c04Hook) script(dir string) string {
+func c04GroupNum(s string) int {
+	if s == "" || s == "-" {
+		return 0
+	}
+	g, _ := strconv.Atoi(strings.TrimPrefix(s, "g"))
+	return g
+}
+
+func (h c04Hook) script(dir, ns string) string {
 	var b strings.Builder
 	b.WriteString("#!/usr/bin/env bash\n")
 	b.WriteString("if [[ \"$1\" == \"--config\" ]]; then\ncat <<'EOF'\nconfigVersion: v1\n")
@@ -112,6 +128,19 @@ func (h c04Hook) script(dir string) string {
 			}
 			if bd.Group != 0 {
 				fmt.Fprintf(&b, "  group: %s\n", c04GroupName(bd.Group))
+			}
+		}
+	}
+	if len(h.KBindings) > 0 {
+		b.WriteString("kubernetes:\n")
+		for _, kb := range h.KBindings {
+			fmt.Fprintf(&b, "- name: %s\n  apiVersion: v1\n  kind: ConfigMap\n  allowFailure: %v\n  executeHookOnSynchronization: %v\n", kb.Name, kb.AF, kb.EOS)
+			fmt.Fprintf(&b, "  namespace:\n    nameSelector:\n      matchNames: [%s-%s]\n  labelSelector:\n    matchLabels:\n      verif: %s\n", ns, kb.Name, kb.Name)
+			if h.Queue != 0 {
+				fmt.Fprintf(&b, "  queue: %s\n", c04QueueName(h.Queue))
+			}
+			if kb.Group != 0 {
+				fmt.Fprintf(&b, "  group: %s\n", c04GroupName(kb.Group))
 			}
 		}
 	}
@@ -142,87 +171,116 @@ type c04BoCall struct {
 	at    time.Time
 }
 
-// c04Ret is taken inside the (wrapped) queue handler when the real handler returns: the queue as
-// it is after combining and running the hook, before the worker applies the result.
+// c04Snap is what the harness reads off a queued task.
+type c04Snap struct {
+	id    string
+	typ   task.TaskType
+	hook  string
+	af    bool
+	group string
+	bt    htypes.BindingType
+	eos   bool
+	ctxs  string // intrinsic: binding:type:group
+	bname string // binding name of the first context
+}
+
+// c04Entry is taken inside the wrapped queue handler before the real handler runs: the queue as the
+// worker found it. c04Ret when the real handler returns: the queue after combining and running the
+// hook, before the worker applies the result.
+type c04Entry struct {
+	at  time.Time
+	pre []c04Snap
+}
+
 type c04Ret struct {
 	status queue.TaskStatus
 	post   []c04Snap
-}
-
-type c04Snap struct {
-	id   string
-	af   bool
-	ctxs string
 }
 
 type c04Start struct {
 	hook string
 	n    int
 	ts   int64
-	ctxs string // canonical b:t:g;…
+	ctxs string
+}
+
+type c04Running struct {
+	head  c04Snap
+	real  task.Task
+	hook  c04Hook
+	start c04Start
+	kind  string // exec | norun | noexec
+	ret   *c04Ret
 }
 
 type c04World struct {
 	c      *Case
 	dir    string
+	ns     string
+	fc     *fake.Cluster
 	op     *shell_operator.ShellOperator
 	hooks  []c04Hook
 	cancel context.CancelFunc
 	tasks  *Interner // task uuid → number
 	binds  *Interner // binding name → number
+	known  map[string]bool
 	boInit time.Duration
 	boStep time.Duration
-	realBo bool // use the real CalculateDelay (first failure only)
+	realBo bool
+	objs   int
 
 	imu     sync.Mutex
 	mu      sync.Mutex
 	boCalls map[string][]c04BoCall
+	entries map[string]chan c04Entry
 	rets    map[string]chan c04Ret
-	entered map[string]time.Time // when the worker entered the handler last (per queue)
 	logSeen int
 	// per queue: the previous non-allowed failure (for the retry-timing oracle)
 	lastFail map[int]*c04BoCall
 	running  map[int]*c04Running
 }
 
-type c04Running struct {
-	head  task.Task
-	hook  c04Hook
-	start c04Start
+func (w *c04World) snap(x task.Task) c04Snap {
+	s := c04Snap{id: x.GetId(), typ: x.GetType()}
+	if x.GetMetadata() != nil {
+		hm := task_metadata.HookMetadataAccessor(x)
+		s.hook, s.af, s.group, s.bt, s.eos, s.ctxs = hm.HookName, hm.AllowFailure, hm.Group, hm.BindingType, hm.ExecuteOnSynchronization, w.metaCtxs(hm)
+		if len(hm.BindingContext) > 0 {
+			s.bname = hm.BindingContext[0].Binding
+		}
+	}
+	return s
+}
+
+func (w *c04World) snapQueue(q *queue.TaskQueue) []c04Snap {
+	var res []c04Snap
+	q.Iterate(func(x task.Task) { res = append(res, w.snap(x)) })
+	return res
 }
 
 func (w *c04World) configure(q *queue.TaskQueue) {
-	qn := q.Name
-	realHandler := q.Handler
-	w.mu.Lock()
-	w.rets[qn] = make(chan c04Ret, 256)
-	ch := w.rets[qn]
-	w.mu.Unlock()
-	q.Handler = func(t task.Task) queue.TaskResult {
-		w.mu.Lock()
-		w.entered[qn] = time.Now()
-		w.mu.Unlock()
-		res := realHandler(t)
-		if t.GetType() == task_metadata.HookRun {
-			var post []c04Snap
-			q.Iterate(func(x task.Task) {
-				hm := task_metadata.HookMetadataAccessor(x)
-				post = append(post, c04Snap{x.GetId(), hm.AllowFailure, w.metaCtxs(hm)})
-			})
-			ch <- c04Ret{res.Status, post}
-		}
-		return res
-	}
 	q.WaitLoopCheckInterval = 2 * time.Millisecond
 	q.DelayOnQueueIsEmpty = 4 * time.Millisecond
 	q.DelayOnRepeat = 4 * time.Millisecond
 	name := q.Name
+	realHandler := q.Handler
+	w.mu.Lock()
+	w.entries[name] = make(chan c04Entry, 256)
+	w.rets[name] = make(chan c04Ret, 256)
+	ech, rch := w.entries[name], w.rets[name]
+	w.mu.Unlock()
+	q.Handler = func(t task.Task) queue.TaskResult {
+		ech <- c04Entry{time.Now(), w.snapQueue(q)}
+		res := realHandler(t)
+		rch <- c04Ret{res.Status, w.snapQueue(q)}
+		return res
+	}
 	orig := q.ExponentialBackoffFn
 	q.ExponentialBackoffFn = func(fc int) time.Duration {
 		var d time.Duration
 		switch {
 		case w.boInit == 0:
-			d = orig(fc) // the closure the queue was created with (default 5s initial delay)
+			d = orig(fc) // the closure the queue was created with (default 5 s initial delay)
 		case w.realBo:
 			d = eb.CalculateDelay(w.boInit, fc)
 		default:
@@ -241,12 +299,15 @@ func newC04World(c *Case, r *Run, hooks []c04Hook, boInit, boStep time.Duration,
 		return nil, err
 	}
 	_ = os.MkdirAll(filepath.Join(dir, "tmp"), 0o755)
-	w := &c04World{c: c, dir: dir, hooks: hooks, tasks: NewInterner(), binds: NewInterner(), boInit: boInit, boStep: boStep,
-		realBo: realBo, boCalls: map[string][]c04BoCall{}, rets: map[string]chan c04Ret{}, entered: map[string]time.Time{}, lastFail: map[int]*c04BoCall{}, running: map[int]*c04Running{}}
+	w := &c04World{c: c, dir: dir, hooks: hooks, tasks: NewInterner(), binds: NewInterner(), known: map[string]bool{},
+		boInit: boInit, boStep: boStep, realBo: realBo, boCalls: map[string][]c04BoCall{},
+		entries: map[string]chan c04Entry{}, rets: map[string]chan c04Ret{}, lastFail: map[int]*c04BoCall{}, running: map[int]*c04Running{}}
+	// informer factories are shared process-wide by (resource, namespace, selector): one namespace per case
+	w.ns = fmt.Sprintf("c04-%d-%d", r.Seed, c.Idx)
 	for _, h := range hooks {
 		// a child forked by another goroutine meanwhile would inherit the write fd (ETXTBSY on exec)
 		syscall.ForkLock.RLock()
-		err := os.WriteFile(filepath.Join(dir, "hooks", h.Name+".sh"), []byte(h.script(dir)), 0o755)
+		err := os.WriteFile(filepath.Join(dir, "hooks", h.Name+".sh"), []byte(h.script(dir, w.ns)), 0o755)
 		syscall.ForkLock.RUnlock()
 		if err != nil {
 			return nil, err
@@ -254,12 +315,17 @@ func newC04World(c *Case, r *Run, hooks []c04Hook, boInit, boStep time.Duration,
 	}
 	ctx, cancel := context.WithCancel(context.Background())
 	w.cancel = cancel
-	fc := fake.NewFakeCluster(fake.ClusterVersionV127)
-	op, err := shell_operator.VerifAssemble(ctx, fc.Client, filepath.Join(dir, "hooks"), filepath.Join(dir, "tmp"))
+	w.fc = fake.NewFakeCluster(fake.ClusterVersionV127)
+	// the fake watch ignores label selectors: one namespace per kubernetes binding
+	for _, h := range hooks {
+		for _, kb := range h.KBindings {
+			w.fc.CreateNs(w.ns + "-" + kb.Name)
+		}
+	}
+	op, err := shell_operator.VerifAssemble(ctx, w.fc.Client, filepath.Join(dir, "hooks"), filepath.Join(dir, "tmp"))
 	for i := 0; err != nil && strings.Contains(err.Error(), "text file busy") && i < 20; i++ {
-		// ETXTBSY: another goroutine forked while the script was still open for writing
 		time.Sleep(10 * time.Millisecond)
-		op, err = shell_operator.VerifAssemble(ctx, fc.Client, filepath.Join(dir, "hooks"), filepath.Join(dir, "tmp"))
+		op, err = shell_operator.VerifAssemble(ctx, w.fc.Client, filepath.Join(dir, "hooks"), filepath.Join(dir, "tmp"))
 	}
 	if err != nil {
 		cancel()
@@ -302,38 +368,31 @@ func (w *c04World) hookByName(name string) (c04Hook, bool) {
 	return c04Hook{}, false
 }
 
-func (w *c04World) queueTasks(qn int) []task.Task {
-	var ts []task.Task
+func (w *c04World) queueLen(qn int) int {
 	q := w.op.TaskQueues.GetByName(c04QueueName(qn))
 	if q == nil {
-		return nil
+		return 0
 	}
-	q.Iterate(func(t task.Task) { ts = append(ts, t) })
-	return ts
+	return q.Length()
 }
 
-func (w *c04World) ids(ts []task.Task) string {
+func (w *c04World) snapIds(ss []c04Snap) string {
 	var ids []int
-	for _, t := range ts {
-		ids = append(ids, w.tasks.Id(t.GetId()))
+	for _, s := range ss {
+		ids = append(ids, w.tasks.Id(s.id))
 	}
 	return joinInts(ids)
 }
 
-// c04MetaCtxs prints the contexts of a task's metadata the way the hook sees them.
+// metaCtxs prints the contexts of a task's metadata (intrinsic type: 0 Synchronization, 1 Event,
+// 3 Schedule, 4 OnStartup; the hook sees type 2 "Group" for a grouped context).
 func (w *c04World) metaCtxs(hm task_metadata.HookMetadata) string {
 	w.imu.Lock()
 	defer w.imu.Unlock()
 	var ss []string
 	for _, bc := range hm.BindingContext {
-		g := 0
-		if bc.Metadata.Group != "" {
-			g, _ = strconv.Atoi(strings.TrimPrefix(bc.Metadata.Group, "g"))
-		}
 		ty := 4
 		switch {
-		case g != 0:
-			ty = 2
 		case bc.Metadata.BindingType == htypes.Schedule:
 			ty = 3
 		case bc.Metadata.BindingType == htypes.OnKubernetesEvent && bc.Type == "Synchronization":
@@ -341,7 +400,7 @@ func (w *c04World) metaCtxs(hm task_metadata.HookMetadata) string {
 		case bc.Metadata.BindingType == htypes.OnKubernetesEvent:
 			ty = 1
 		}
-		ss = append(ss, fmt.Sprintf("%d:%d:%d", w.binds.Id(bc.Binding), ty, g))
+		ss = append(ss, fmt.Sprintf("%d:%d:%d", w.binds.Id(bc.Binding), ty, c04GroupNum(bc.Metadata.Group)))
 	}
 	if len(ss) == 0 {
 		return "-"
@@ -349,7 +408,7 @@ func (w *c04World) metaCtxs(hm task_metadata.HookMetadata) string {
 	return strings.Join(ss, ";")
 }
 
-// parse the hook's own view (jq output) into the canonical form
+// hookCtxs turns the hook's own view (jq output of its context file) into binding:type:group
 func (w *c04World) hookCtxs(js string) string {
 	w.imu.Lock()
 	defer w.imu.Unlock()
@@ -362,12 +421,11 @@ func (w *c04World) hookCtxs(js string) string {
 		if len(x) != 3 {
 			return "unparsable"
 		}
-		g := 0
-		if x[2] != "-" {
-			g, _ = strconv.Atoi(strings.TrimPrefix(x[2], "g"))
+		ty, ok := map[string]int{"Synchronization": 0, "Event": 1, "Group": 2, "Schedule": 3, "-": 4}[x[1]]
+		if !ok {
+			ty = 9
 		}
-		ty := map[string]int{"Synchronization": 0, "Event": 1, "Group": 2, "Schedule": 3, "-": 4}[x[1]]
-		ss = append(ss, fmt.Sprintf("%d:%d:%d", w.binds.Id(x[0]), ty, g))
+		ss = append(ss, fmt.Sprintf("%d:%d:%d", w.binds.Id(x[0]), ty, c04GroupNum(x[2])))
 	}
 	if len(ss) == 0 {
 		return "-"
@@ -389,21 +447,6 @@ func (w *c04World) readStarts() []c04Start {
 	return res
 }
 
-// waitStart waits for the next unseen start line.
-func (w *c04World) waitStart(timeout time.Duration) (c04Start, bool) {
-	deadline := time.Now().Add(timeout)
-	for time.Now().Before(deadline) {
-		ss := w.readStarts()
-		if len(ss) > w.logSeen {
-			s := ss[w.logSeen]
-			w.logSeen++
-			return s, true
-		}
-		time.Sleep(2 * time.Millisecond)
-	}
-	return c04Start{}, false
-}
-
 func b01(b bool) int {
 	if b {
 		return 1
@@ -411,85 +454,161 @@ func b01(b bool) int {
 	return 0
 }
 
-// describe the tasks already sitting in a queue (startup tasks) to the model
-func (w *c04World) declareExisting(qn int) {
-	for _, t := range w.queueTasks(qn) {
-		hm := task_metadata.HookMetadataAccessor(t)
-		h, _ := w.hookByName(hm.HookName)
-		ty := 2
-		switch t.GetType() {
-		case task_metadata.HookRun:
-			ty = 0
-		case task_metadata.EnableKubernetesBindings:
-			ty = 1
-		}
-		id := w.tasks.Id(t.GetId())
-		line := fmt.Sprintf("task %d q=%d hook=%d type=%d af=0 bt=0 grp=0 ctxs=%s", id, qn, h.Num, ty, w.metaCtxs(hm))
-		w.c.Op(line, fmt.Sprintf("af=%d grp=0 queue=%s", b01(hm.AllowFailure), w.idsUpTo(qn, t)))
+func (w *c04World) taskLine(s c04Snap, qn int) string {
+	h, _ := w.hookByName(s.hook)
+	ty := 2
+	switch s.typ {
+	case task_metadata.HookRun:
+		ty = 0
+	case task_metadata.EnableKubernetesBindings:
+		ty = 1
 	}
+	bt := 0
+	switch s.bt {
+	case htypes.Schedule:
+		bt = 1
+	case htypes.OnKubernetesEvent:
+		bt = 2
+	}
+	af, grp, eos := s.af, c04GroupNum(s.group), s.eos
+	if s.typ == task_metadata.HookRun && s.bt == htypes.OnKubernetesEvent {
+		// a Synchronization task: what the generated configuration of its binding prescribes
+		for _, kb := range h.KBindings {
+			if kb.Name == s.bname {
+				af, grp, eos = kb.AF, kb.Group, kb.EOS
+			}
+		}
+	}
+	return fmt.Sprintf("task %d q=%d hook=%d type=%d af=%d bt=%d grp=%d eos=%d ctxs=%s", w.tasks.Id(s.id), qn, h.Num, ty,
+		b01(af), bt, grp, b01(eos), s.ctxs)
 }
 
-func (w *c04World) idsUpTo(qn int, last task.Task) string {
-	var ids []int
-	for _, t := range w.queueTasks(qn) {
-		ids = append(ids, w.tasks.Id(t.GetId()))
-		if t.GetId() == last.GetId() {
-			break
-		}
-	}
-	return joinInts(ids)
-}
-
-// push fires the schedule binding: the real events handler turns it into a task in the queue.
-func (w *c04World) push(h c04Hook, bd c04Binding) bool {
-	before := len(w.queueTasks(h.Queue))
-	select {
-	case w.op.ScheduleManager.Ch() <- bd.Crontab:
-	case <-time.After(5 * time.Second):
-		w.c.Inconcl = "schedule channel not consumed"
-		return false
-	}
+// arrived waits until the queue has grown and declares the new tail task to the model with the
+// attributes the generated hook configuration prescribes.
+func (w *c04World) arrived(h c04Hook, before int, af bool, group int, bt int, bname string, ctxType int) bool {
 	deadline := time.Now().Add(10 * time.Second)
-	for len(w.queueTasks(h.Queue)) <= before {
+	for w.queueLen(h.Queue) <= before {
 		if time.Now().After(deadline) {
 			w.c.Op(fmt.Sprintf("task 999 q=%d hook=%d", h.Queue, h.Num), "event-not-queued")
 			return false
 		}
 		time.Sleep(time.Millisecond)
 	}
-	ts := w.queueTasks(h.Queue)
-	nt := ts[len(ts)-1]
-	hm := task_metadata.HookMetadataAccessor(nt)
-	ty := 3
-	if bd.Group != 0 {
-		ty = 2
-	}
-	g := 0
-	if hm.Group != "" {
-		g, _ = strconv.Atoi(strings.TrimPrefix(hm.Group, "g"))
-	}
-	line := fmt.Sprintf("task %d q=%d hook=%d type=0 af=%d bt=1 grp=%d ctxs=%d:%d:%d", w.tasks.Id(nt.GetId()), h.Queue, h.Num,
-		b01(bd.AF), bd.Group, w.binds.Id(bd.Name), ty, bd.Group)
-	w.c.Op(line, fmt.Sprintf("af=%d grp=%d queue=%s", b01(hm.AllowFailure), g, w.ids(ts)))
-	w.c.Note("event:schedule")
+	ss := w.snapQueue(w.op.TaskQueues.GetByName(c04QueueName(h.Queue)))
+	nt := ss[len(ss)-1]
+	w.known[nt.id] = true
+	w.imu.Lock()
+	bnum := w.binds.Id(bname)
+	w.imu.Unlock()
+	line := fmt.Sprintf("task %d q=%d hook=%d type=0 af=%d bt=%d grp=%d eos=%d ctxs=%d:%d:%d", w.tasks.Id(nt.id), h.Queue, h.Num,
+		b01(af), bt, group, b01(bt != 2), bnum, ctxType, group)
+	w.c.Op(line, fmt.Sprintf("af=%d grp=%d ctxs=%s queue=%s", b01(nt.af), c04GroupNum(nt.group), nt.ctxs, w.snapIds(ss)))
 	return true
 }
 
-// begin waits until the worker of the queue is inside the handler of the head task (the hook has
-// written its start line and is blocked at its gate) and records the `begin` line.
+// push fires the schedule binding: the real events handler turns it into a task in the queue.
+func (w *c04World) push(h c04Hook, bd c04Binding) bool {
+	before := w.queueLen(h.Queue)
+	select {
+	case w.op.ScheduleManager.Ch() <- bd.Crontab:
+	case <-time.After(5 * time.Second):
+		w.c.Inconcl = "schedule channel not consumed"
+		return false
+	}
+	w.c.Note("event:schedule")
+	return w.arrived(h, before, bd.AF, bd.Group, 1, bd.Name, 3)
+}
+
+// pushKube creates a ConfigMap matching exactly this binding: informer → kube event → task.
+func (w *c04World) pushKube(h c04Hook, kb c04KBinding) bool {
+	before := w.queueLen(h.Queue)
+	w.objs++
+	m := manifest.MustFromYAML(fmt.Sprintf("apiVersion: v1\nkind: ConfigMap\nmetadata:\n  name: cm-%d\n  namespace: %s-%s\n  labels:\n    verif: %s\ndata:\n  n: \"%d\"\n",
+		w.objs, w.ns, kb.Name, kb.Name, w.objs))
+	if err := w.fc.Create(w.ns+"-"+kb.Name, m); err != nil {
+		w.c.Inconcl = "fake cluster create: " + firstLine(err.Error())
+		return false
+	}
+	w.c.Note("event:kubernetes")
+	return w.arrived(h, before, kb.AF, kb.Group, 2, kb.Name, 1)
+}
+
+// begin waits until the worker of the queue has entered the handler for its head task; for a hook
+// run, until the hook has written its start line and is blocked at its gate.
 func (w *c04World) begin(qn int) string {
-	var st c04Start
+	qname := c04QueueName(qn)
+	w.mu.Lock()
+	ech, rch := w.entries[qname], w.rets[qname]
+	w.mu.Unlock()
+	var ent c04Entry
 	deadline := time.Now().Add(15 * time.Second)
+	for got := false; !got; {
+		select {
+		case ent = <-ech:
+			got = true
+		default:
+			if w.queueLen(qn) == 0 && len(ech) == 0 {
+				w.c.Op(fmt.Sprintf("begin q=%d", qn), "idle")
+				return "idle"
+			}
+			if time.Now().After(deadline) {
+				w.c.Op(fmt.Sprintf("begin q=%d", qn), "worker-does-not-pick")
+				return "hang"
+			}
+			time.Sleep(time.Millisecond)
+		}
+	}
+	if len(ent.pre) == 0 {
+		w.c.Op(fmt.Sprintf("begin q=%d", qn), "handler-entered-with-empty-queue")
+		return "hang"
+	}
+	// tasks the harness has not seen yet were put at the head by the previous handler (HeadTasks of
+	// EnableKubernetesBindings) or, at startup, by bootstrapMainQueue
+	var unknown []c04Snap
+	for _, s := range ent.pre {
+		if !w.known[s.id] {
+			unknown = append(unknown, s)
+		}
+	}
+	for _, s := range unknown {
+		w.tasks.Id(s.id) // number them in queue order
+	}
+	for i := len(unknown) - 1; i >= 0; i-- {
+		s := unknown[i]
+		w.known[s.id] = true
+		w.c.Op(w.taskLine(s, qn)+" at=head", fmt.Sprintf("af=%d grp=%d eos=%d head", b01(s.af), c04GroupNum(s.group), b01(s.eos)))
+	}
+	head := ent.pre[0]
+	id := w.tasks.Id(head.id)
+	var real task.Task
+	w.op.TaskQueues.GetByName(qname).Iterate(func(t task.Task) {
+		if t.GetId() == head.id {
+			real = t
+		}
+	})
+	run := &c04Running{head: head, real: real}
+	w.running[qn] = run
+	if head.typ != task_metadata.HookRun {
+		run.kind = "noexec"
+		w.c.Op(fmt.Sprintf("begin q=%d", qn), fmt.Sprintf("noexec task=%d", id))
+		return "noexec"
+	}
+	// a hook run: either the hook starts (and blocks at its gate) or the handler returns without running it
 	for {
 		ss := w.readStarts()
 		if len(ss) > w.logSeen {
-			st = ss[w.logSeen]
+			run.start = ss[w.logSeen]
 			w.logSeen++
 			break
 		}
-		if len(w.queueTasks(qn)) == 0 {
-			w.c.Op(fmt.Sprintf("begin q=%d", qn), "idle")
-			return "idle"
+		select {
+		case ret := <-rch:
+			run.kind = "norun"
+			run.ret = &ret
+			w.c.Op(fmt.Sprintf("begin q=%d", qn), fmt.Sprintf("norun task=%d queue=%s", id, w.snapIds(ret.post)))
+			w.c.Note("begin:hook-not-run-by-configuration")
+			return "norun"
+		default:
 		}
 		if time.Now().After(deadline) {
 			w.c.Op(fmt.Sprintf("begin q=%d", qn), "no-hook-start")
@@ -497,33 +616,28 @@ func (w *c04World) begin(qn int) string {
 		}
 		time.Sleep(2 * time.Millisecond)
 	}
-	ts := w.queueTasks(qn)
-	if len(ts) == 0 {
-		w.c.Op(fmt.Sprintf("begin q=%d", qn), "hook-started-with-empty-queue")
-		return "hang"
-	}
-	head := ts[0]
-	id := w.tasks.Id(head.GetId())
-	h, _ := w.hookByName(st.hook)
-	ctxs := w.hookCtxs(st.ctxs)
-	w.c.Op(fmt.Sprintf("begin q=%d", qn), fmt.Sprintf("exec task=%d hook=%d ctxs=%s queue=%s", id, h.Num, ctxs, w.ids(ts)))
-	w.running[qn] = &c04Running{head: head, hook: h, start: st}
+	run.kind = "exec"
+	run.hook, _ = w.hookByName(run.start.hook)
+	now := w.snapQueue(w.op.TaskQueues.GetByName(qname))
+	w.c.Op(fmt.Sprintf("begin q=%d", qn), fmt.Sprintf("exec task=%d hook=%d ctxs=%s queue=%s", id, run.hook.Num, w.hookCtxs(run.start.ctxs), w.snapIds(now)))
 	gap := int64(0)
 	if lf := w.lastFail[qn]; lf != nil {
 		// from the back-off call after the failed attempt to the worker entering the handler again
-		w.mu.Lock()
-		entered := w.entered[c04QueueName(qn)]
-		w.mu.Unlock()
-		gap = entered.Sub(lf.at).Nanoseconds()
-		if gap < 0 {
-			gap = 0
-		}
+		gap = ent.at.Sub(lf.at).Nanoseconds()
 	}
 	w.c.Oracle(fmt.Sprintf("begin q=%d task=%d gap=%d", qn, id, gap))
+	if strings.Contains(head.ctxs, ":0:") {
+		w.c.Note("begin:synchronization-run")
+		if head.group == "" && head.bt == htypes.OnKubernetesEvent && strings.Contains(strings.SplitN(head.ctxs, ";", 2)[0], ":0:") {
+			// C07.6: an ungrouped Synchronization is never combined
+			w.c.Oracle(fmt.Sprintf("nocombine q=%d ctxs=%s queue=%s", qn, w.hookCtxs(run.start.ctxs), w.snapIds(now)))
+			w.c.Note("oracle:nocombine-ungrouped-synchronization")
+		}
+	}
 	return "exec"
 }
 
-// end lets the blocked hook finish in the given mode and records what the worker did with the result.
+// end lets the blocked hook finish in the given mode and records what the handler returned.
 func (w *c04World) end(qn int, mode string) string {
 	run := w.running[qn]
 	delete(w.running, qn)
@@ -531,37 +645,46 @@ func (w *c04World) end(qn int, mode string) string {
 		return "not-running"
 	}
 	qname := c04QueueName(qn)
-	id := w.tasks.Id(run.head.GetId())
+	id := w.tasks.Id(run.head.id)
 	w.mu.Lock()
 	nbo := len(w.boCalls[qname])
-	w.mu.Unlock()
-	gate := filepath.Join(w.dir, fmt.Sprintf("gate.%s.%d", run.hook.Name, run.start.n))
-	_ = os.WriteFile(gate+".tmp", []byte(mode), 0o644)
-	_ = os.Rename(gate+".tmp", gate)
-	status := ""
-	var bo c04BoCall
-	w.mu.Lock()
-	ch := w.rets[qname]
+	rch := w.rets[qname]
 	w.mu.Unlock()
 	var ret c04Ret
-	select {
-	case ret = <-ch:
-	case <-time.After(20 * time.Second):
-		w.c.Op(fmt.Sprintf("end q=%d ok=%d", qn, b01(mode == "ok")), "hang")
-		return "hang"
+	switch run.kind {
+	case "norun":
+		ret = *run.ret
+		mode = "ok"
+	default:
+		if run.kind == "exec" {
+			gate := filepath.Join(w.dir, fmt.Sprintf("gate.%s.%d", run.hook.Name, run.start.n))
+			_ = os.WriteFile(gate+".tmp", []byte(mode), 0o644)
+			_ = os.Rename(gate+".tmp", gate)
+		}
+		select {
+		case ret = <-rch:
+		case <-time.After(20 * time.Second):
+			w.c.Op(fmt.Sprintf("end q=%d ok=%d", qn, b01(mode == "ok")), "hang")
+			return "hang"
+		}
 	}
-	status = "success"
+	if run.kind == "noexec" {
+		w.c.Op(fmt.Sprintf("end q=%d ok=1", qn), "status="+strings.ToLower(string(ret.status))+" noexec")
+		return "success"
+	}
+	status := "success"
+	var bo c04BoCall
 	if ret.status == queue.Fail {
 		status = "fail"
 		// the worker calls ExponentialBackoffFn and IncrementFailureCount right after the handler
 		for i := 0; i < 400; i++ {
 			w.mu.Lock()
-			if len(w.boCalls[qname]) > nbo {
+			got := len(w.boCalls[qname]) > nbo
+			if got {
 				bo = w.boCalls[qname][nbo]
 			}
-			got := len(w.boCalls[qname]) > nbo
 			w.mu.Unlock()
-			if got && run.head.GetFailureCount() == bo.fc+1 {
+			if got && run.real != nil && run.real.GetFailureCount() == bo.fc+1 {
 				break
 			}
 			time.Sleep(time.Millisecond)
@@ -570,31 +693,39 @@ func (w *c04World) end(qn int, mode string) string {
 		status = string(ret.status)
 	}
 	var after []string
-	var afterIds []int
+	var afterSnaps []c04Snap
 	for _, x := range ret.post {
-		if status == "success" && x.id == run.head.GetId() {
+		if status == "success" && x.id == run.head.id {
 			continue // the worker removes the handled task on Success
 		}
 		after = append(after, fmt.Sprintf("%d,%d,%s", w.tasks.Id(x.id), b01(x.af), x.ctxs))
-		afterIds = append(afterIds, w.tasks.Id(x.id))
+		afterSnaps = append(afterSnaps, x)
 	}
 	afterS := "-"
 	if len(after) > 0 {
 		afterS = strings.Join(after, "|")
 	}
 	ok := b01(mode == "ok")
-	w.c.Oracle(fmt.Sprintf("end q=%d ok=%d task=%d ctxs=%s sleep=%d after=%s s0=0", qn, ok, id, w.hookCtxs(run.start.ctxs),
-		bo.delay.Nanoseconds(), afterS))
-	w.c.Op(fmt.Sprintf("end q=%d ok=%d", qn, ok), fmt.Sprintf("status=%s fc=%d sleep=%d queue=%s", status, run.head.GetFailureCount(),
-		bo.delay.Nanoseconds(), joinInts(afterIds)))
+	fc := 0
+	if run.real != nil {
+		fc = run.real.GetFailureCount()
+	}
+	if run.kind == "exec" {
+		w.c.Oracle(fmt.Sprintf("end q=%d ok=%d task=%d ctxs=%s sleep=%d after=%s s0=0", qn, ok, id, w.hookCtxs(run.start.ctxs),
+			bo.delay.Nanoseconds(), afterS))
+	}
+	w.c.Op(fmt.Sprintf("end q=%d ok=%d", qn, ok), fmt.Sprintf("status=%s fc=%d sleep=%d queue=%s", status, fc,
+		bo.delay.Nanoseconds(), w.snapIds(afterSnaps)))
 	if status == "fail" {
 		w.lastFail[qn] = &bo
 		w.c.Note("end:fail-" + mode)
 	} else {
 		w.lastFail[qn] = nil
-		if mode == "ok" {
+		switch {
+		case run.kind == "norun":
+		case mode == "ok":
 			w.c.Note("end:success")
-		} else {
+		default:
 			w.c.Note("end:allowed-failure-" + mode)
 		}
 	}
@@ -603,17 +734,29 @@ func (w *c04World) end(qn int, mode string) string {
 
 // ---------------------------------------------------------------- scenarios
 
+// an event to fire: hook index, binding index, kube?
+type c04Ev struct {
+	H, B int
+	Kube bool
+}
+
 type c04Plan struct {
-	hooks  []c04Hook
-	boInit time.Duration
-	boStep time.Duration
-	realBo bool
-	// decide(rng state is inside): called at every begin of a hook run
-	outcome func(taskID int, failuresSoFar int) string // "ok" | "exit" | "metrics" | "patch"
-	// events to push while a run is blocked: returns bindings to fire
-	arrivals func(qn int, step int) [][2]int // (hook index, binding index)
-	initial  map[int][][2]int                // per queue: first layout (pushed while the first event's hook is blocked)
+	hooks    []c04Hook
+	boInit   time.Duration
+	boStep   time.Duration
+	realBo   bool
+	outcome  func(taskID int, failuresSoFar int) string // "ok" | "exit" | "metrics" | "patch" | …
+	arrivals func(qn int, step int) []c04Ev             // events fired while a run is blocked
+	initial  map[int][]c04Ev                            // per queue: first layout (the rest arrives while the first run is blocked)
 	maxSteps int
+}
+
+func (w *c04World) fire(p c04Plan, e c04Ev) bool {
+	h := p.hooks[e.H]
+	if e.Kube {
+		return w.pushKube(h, h.KBindings[e.B])
+	}
+	return w.push(h, h.Bindings[e.B])
 }
 
 func c04Execute(c *Case, r *Run, p c04Plan) {
@@ -629,6 +772,18 @@ func c04Execute(c *Case, r *Run, p c04Plan) {
 	}
 	c.Op(fmt.Sprintf("backoff init=%d step=%d", bi.Nanoseconds(), p.boStep.Nanoseconds()), "ok")
 	fails := map[int]int{}
+	finish := func(qn int) string {
+		run := w.running[qn]
+		id := w.tasks.Id(run.head.id)
+		mode := "ok"
+		if run.kind == "exec" {
+			mode = p.outcome(id, fails[id])
+			if mode != "ok" {
+				fails[id]++
+			}
+		}
+		return w.end(qn, mode)
+	}
 	drive := func(qn int, withArrivals bool) bool {
 		for step := 0; step < p.maxSteps; step++ {
 			switch w.begin(qn) {
@@ -636,71 +791,25 @@ func c04Execute(c *Case, r *Run, p c04Plan) {
 				return true
 			case "hang":
 				return false
-			}
-			run := w.running[qn]
-			id := w.tasks.Id(run.head.GetId())
-			if withArrivals && p.arrivals != nil {
-				for _, hb := range p.arrivals(qn, step) {
-					if !w.push(p.hooks[hb[0]], p.hooks[hb[0]].Bindings[hb[1]]) {
-						return false
+			case "exec":
+				if withArrivals && p.arrivals != nil {
+					for _, e := range p.arrivals(qn, step) {
+						if !w.fire(p, e) {
+							return false
+						}
 					}
 				}
 			}
-			mode := p.outcome(id, fails[id])
-			if mode != "ok" {
-				fails[id]++
-			}
-			if w.end(qn, mode) == "hang" {
+			if finish(qn) == "hang" {
 				return false
 			}
 		}
 		return true
 	}
-	// startup: the main queue holds onStartup runs and the Enable… tasks
-	w.declareExisting(0)
-	startup := w.queueTasks(0)
+	// startup: onStartup runs, EnableKubernetesBindings (→ Synchronization runs at the head), EnableScheduleBindings
 	w.op.TaskQueues.StartMain()
-	for _, t := range startup {
-		if t.GetType() != task_metadata.HookRun {
-			// EnableScheduleBindings …: another handler, no hook run; wait until the task is gone
-			deadline := time.Now().Add(10 * time.Second)
-			for gone := false; !gone; {
-				gone = true
-				for _, x := range w.queueTasks(0) {
-					if x.GetId() == t.GetId() {
-						gone = false
-					}
-				}
-				if !gone && time.Now().After(deadline) {
-					c.Op("begin q=0", "hang")
-					return
-				}
-				if !gone {
-					time.Sleep(time.Millisecond)
-				}
-			}
-			c.Op("begin q=0", fmt.Sprintf("noexec task=%d", w.tasks.Id(t.GetId())))
-			c.Op("end q=0 ok=1", "status=success noexec")
-			continue
-		}
-		for {
-			if w.begin(0) != "exec" {
-				return
-			}
-			id := w.tasks.Id(t.GetId())
-			mode := p.outcome(id, fails[id])
-			if mode != "ok" {
-				fails[id]++
-			}
-			st := w.end(0, mode)
-			if st == "hang" {
-				return
-			}
-			if st != "fail" {
-				break
-			}
-		}
-		c.Note("startup:onStartup-run")
+	if !drive(0, false) {
+		return
 	}
 	// layouts: per queue, the first event starts running at once; the rest arrives while it is blocked
 	for _, qn := range []int{0, 1} {
@@ -708,25 +817,18 @@ func c04Execute(c *Case, r *Run, p c04Plan) {
 		if len(evs) == 0 {
 			continue
 		}
-		h0 := p.hooks[evs[0][0]]
-		if !w.push(h0, h0.Bindings[evs[0][1]]) {
+		if !w.fire(p, evs[0]) {
 			return
 		}
 		if w.begin(qn) != "exec" {
 			return
 		}
-		for _, hb := range evs[1:] {
-			if !w.push(p.hooks[hb[0]], p.hooks[hb[0]].Bindings[hb[1]]) {
+		for _, e := range evs[1:] {
+			if !w.fire(p, e) {
 				return
 			}
 		}
-		run := w.running[qn]
-		id := w.tasks.Id(run.head.GetId())
-		mode := p.outcome(id, fails[id])
-		if mode != "ok" {
-			fails[id]++
-		}
-		if w.end(qn, mode) == "hang" {
+		if finish(qn) == "hang" {
 			return
 		}
 		if !drive(qn, true) {
@@ -735,10 +837,10 @@ func c04Execute(c *Case, r *Run, p c04Plan) {
 	}
 }
 
-func c04GenHooks(rng *Rng, nh int) []c04Hook {
+func c04GenHooks(rng *Rng, nh int, kube bool) []c04Hook {
 	var hooks []c04Hook
 	cron := 0
-	bnum := 1 // binding number 1 is "onStartup" (interned first by declareExisting? no: explicit below)
+	bnum := 0
 	for i := 0; i < nh; i++ {
 		h := c04Hook{Name: fmt.Sprintf("hook%02d", i+1), Num: i + 1}
 		if rng.Chance(50) {
@@ -749,12 +851,21 @@ func c04GenHooks(rng *Rng, nh int) []c04Hook {
 		for j := 0; j < nb; j++ {
 			bnum++
 			cron++
-			bd := c04Binding{Name: fmt.Sprintf("b%d", bnum), Num: bnum, Crontab: fmt.Sprintf("%d %d 1 1 *", cron%60, cron/60),
-				AF: rng.Chance(40)}
+			bd := c04Binding{Name: fmt.Sprintf("b%d", bnum), Crontab: fmt.Sprintf("%d %d 1 1 *", cron%60, cron/60), AF: rng.Chance(40)}
 			if rng.Chance(35) {
 				bd.Group = rng.Range(1, 2)
 			}
 			h.Bindings = append(h.Bindings, bd)
+		}
+		if kube && rng.Chance(60) {
+			for j := rng.Range(1, 3); j > 0; j-- {
+				bnum++
+				kb := c04KBinding{Name: fmt.Sprintf("k%d", bnum), AF: rng.Chance(40), EOS: !rng.Chance(15)}
+				if rng.Chance(50) {
+					kb.Group = rng.Range(1, 2)
+				}
+				h.KBindings = append(h.KBindings, kb)
+			}
 		}
 		hooks = append(hooks, h)
 	}
@@ -766,30 +877,39 @@ func c04FailMode(rng *Rng) string {
 }
 
 func c04Random(c *Case, rng *Rng, r *Run) {
-	hooks := c04GenHooks(rng, rng.Range(1, 3))
+	kube := rng.Chance(60)
+	hooks := c04GenHooks(rng, rng.Range(1, 3), kube)
 	p := c04Plan{hooks: hooks, boInit: time.Duration(rng.Range(15, 30)) * time.Millisecond, boStep: 5 * time.Millisecond,
-		initial: map[int][][2]int{}, maxSteps: 40}
+		initial: map[int][]c04Ev{}, maxSteps: 60}
 	if rng.Chance(15) {
 		p.realBo = true // real CalculateDelay(init, 0): tasks fail at most once
 	}
-	byQueue := map[int][][2]int{}
+	byQueue := map[int][]c04Ev{}
+	nk := 0
 	for hi, h := range hooks {
 		for bi := range h.Bindings {
-			byQueue[h.Queue] = append(byQueue[h.Queue], [2]int{hi, bi})
+			byQueue[h.Queue] = append(byQueue[h.Queue], c04Ev{hi, bi, false})
+		}
+		for bi := range h.KBindings {
+			byQueue[h.Queue] = append(byQueue[h.Queue], c04Ev{hi, bi, true})
+			nk++
 		}
 	}
-	for qn, bs := range byQueue {
+	for _, qn := range []int{0, 1} {
+		bs := byQueue[qn]
+		if len(bs) == 0 {
+			continue
+		}
 		n := rng.Range(1, 6)
-		// bias towards runs of the same hook (so that tasks get combined)
 		cur := PickOne(rng, bs)
 		for i := 0; i < n; i++ {
 			if rng.Chance(35) {
 				cur = PickOne(rng, bs)
 			} else {
-				// another binding of the same hook
-				var same [][2]int
+				// another binding of the same hook (so that tasks get combined)
+				var same []c04Ev
 				for _, x := range bs {
-					if x[0] == cur[0] {
+					if x.H == cur.H {
 						same = append(same, x)
 					}
 				}
@@ -803,29 +923,34 @@ func c04Random(c *Case, rng *Rng, r *Run) {
 		maxFail = 1
 	}
 	p.outcome = func(id, failed int) string {
-		if failed < maxFail && rng.Chance(45) {
+		if failed < maxFail && rng.Chance(40) {
 			return c04FailMode(rng)
 		}
 		return "ok"
 	}
 	arrivals := 0
-	p.arrivals = func(qn, step int) [][2]int {
-		if arrivals >= 4 || !rng.Chance(25) {
+	p.arrivals = func(qn, step int) []c04Ev {
+		if arrivals >= 4 || !rng.Chance(25) || len(byQueue[qn]) == 0 {
 			return nil
 		}
 		arrivals++
-		return [][2]int{PickOne(rng, byQueue[qn])}
+		return []c04Ev{PickOne(rng, byQueue[qn])}
 	}
 	nb := 0
 	for _, h := range hooks {
 		nb += len(h.Bindings)
 	}
-	c.Desc = fmt.Sprintf("operator run: %d hooks, %d schedule bindings, layouts main=%d q1=%d", len(hooks), nb, len(p.initial[0]), len(p.initial[1]))
+	c.Desc = fmt.Sprintf("operator run: %d hooks, %d schedule + %d kubernetes bindings, layouts main=%d q1=%d", len(hooks), nb, nk, len(p.initial[0]), len(p.initial[1]))
 	c.Nontrivial = len(p.initial[0])+len(p.initial[1]) >= 2
 	if p.realBo {
 		c.Note("backoff:real-CalculateDelay")
 	} else {
 		c.Note("backoff:linear-shortened")
+	}
+	if nk > 0 {
+		c.Note("case:with-kubernetes-bindings")
+	} else {
+		c.Note("case:schedule-and-onStartup-only")
 	}
 	c04Execute(c, r, p)
 }
@@ -834,11 +959,11 @@ func c04Random(c *Case, rng *Rng, r *Run) {
 // allowFailure:false, failing hook.
 func c04Witness(c *Case, r *Run, headAF, followerAF bool, queueN int, fails int) {
 	hooks := []c04Hook{{Name: "hook01", Num: 1, Queue: queueN, Bindings: []c04Binding{
-		{Name: "b2", Num: 2, Crontab: "1 0 1 1 *", AF: headAF},
-		{Name: "b3", Num: 3, Crontab: "2 0 1 1 *", AF: followerAF},
-	}}, {Name: "hook02", Num: 2, Queue: queueN, Bindings: []c04Binding{{Name: "b4", Num: 4, Crontab: "3 0 1 1 *"}}}}
+		{Name: "b2", Crontab: "1 0 1 1 *", AF: headAF},
+		{Name: "b3", Crontab: "2 0 1 1 *", AF: followerAF},
+	}}, {Name: "hook02", Num: 2, Queue: queueN, Bindings: []c04Binding{{Name: "b4", Crontab: "3 0 1 1 *"}}}}
 	p := c04Plan{hooks: hooks, boInit: 20 * time.Millisecond, boStep: 5 * time.Millisecond, maxSteps: 20,
-		initial: map[int][][2]int{queueN: {{1, 0}, {0, 0}, {0, 1}, {1, 0}}}}
+		initial: map[int][]c04Ev{queueN: {{1, 0, false}, {0, 0, false}, {0, 1, false}, {1, 0, false}}}}
 	p.outcome = func(id, failed int) string {
 		if id >= 4 && failed < fails { // tasks 1..3 are EnableSchedule ×2 and the gate run of hook02
 			return "exit"
@@ -848,8 +973,29 @@ func c04Witness(c *Case, r *Run, headAF, followerAF bool, queueN int, fails int)
 	c04Execute(c, r, p)
 }
 
+// Synchronization layouts: grouped and ungrouped kubernetes bindings with mixed allowFailure, failing.
+func c04SyncWitness(c *Case, r *Run) {
+	hooks := []c04Hook{{Name: "hook01", Num: 1, OnStartup: 1, Queue: 0, KBindings: []c04KBinding{
+		{Name: "k1", AF: true, Group: 1, EOS: true},
+		{Name: "k2", AF: false, Group: 1, EOS: true},
+		{Name: "k3", AF: false, Group: 0, EOS: true},
+		{Name: "k4", AF: false, Group: 0, EOS: false},
+		{Name: "k5", AF: false, Group: 2, EOS: true},
+		{Name: "k6", AF: false, Group: 2, EOS: true},
+	}}}
+	p := c04Plan{hooks: hooks, boInit: 20 * time.Millisecond, boStep: 5 * time.Millisecond, maxSteps: 40,
+		initial: map[int][]c04Ev{0: {{0, 1, true}, {0, 2, true}, {0, 0, true}}}}
+	p.outcome = func(id, failed int) string {
+		if failed < 1 {
+			return "exit"
+		}
+		return "ok"
+	}
+	c04Execute(c, r, p)
+}
+
 func runC04(r *Run) {
-	r.Rule = "part 1: the real CalculateDelay (8 initial delays x retry counts 0..40, repeated) and the queue's default ExponentialBackoffFn: every observed delay must be a member of the model's set {calcDelay k r | r < 1000}; oracle: initial <= delay <= 32s. part 2: the real operator (NewShellOperator + real metric storages + kube-client/fake + real hook manager, event handler and queues) with 1..3 generated bash hooks (onStartup, 1..3 schedule bindings each with allowFailure/group, queue main or q1) whose every execution blocks at a gate until the harness lets it finish as scripted (ok / exit 1 / unparsable metrics file / unparsable patch file / metric operation that fails validation / patch operation that cannot be applied); schedule events are fired through ScheduleManager.Ch() while a run is blocked, so queue layouts of 1..6 tasks (+ up to 4 arriving during runs) with mixed allowFailure values are in the queue when the head is handled; back-off shortened through ExponentialBackoffFn (15..30 ms + 5 ms*failureCount, or the real CalculateDelay for the first failure). Observation per run: the contexts in the hook's context file, the queue afterwards, failure counter, back-off returned, wall-clock gap to the retry. Non-trivial: >= 2 tasks in the layouts. distinct = distinct op-line sequences."
+	r.Rule = "part 1: the real CalculateDelay (8 initial delays x retry counts 0..40, repeated) and the queue's default ExponentialBackoffFn: every observed delay must be a member of the model's set {calcDelay k r | r < 1000}; oracle: initial <= delay <= 32s. part 2: the real operator (NewShellOperator + real metric storages + kube-client/fake + real hook manager, kube events manager, events handler and queues) with 1..3 generated bash hooks (onStartup, 1..3 schedule bindings, in 60% of the cases 1..3 kubernetes bindings on ConfigMaps, each with allowFailure/group, kubernetes ones with executeHookOnSynchronization; queue main or q1) whose every execution blocks at a gate until the harness lets it finish as scripted (ok / exit 1 / unparsable metrics file / unparsable patch file / metric operation that fails validation / patch operation that cannot be applied); startup runs onStartup and Synchronization tasks; then schedule events are fired through ScheduleManager.Ch() and kubernetes events by creating objects in the fake cluster while a run is blocked, so queue layouts of 1..6 tasks (+ up to 4 arriving during runs) with mixed allowFailure values are in the queue when the head is handled; back-off shortened through ExponentialBackoffFn (15..30 ms + 5 ms*failureCount, or the real CalculateDelay for the first failure). Observation per run (taken inside a wrapper of the queue's Handler field and from the hook): queue at handler entry, contexts in the hook's context file, queue at handler return, failure counter, back-off returned, time from the back-off call to the next handler entry. Non-trivial: >= 2 tasks in the layouts. distinct = distinct op-line sequences."
 	r.CaseTimeout = 120 * time.Second
 	r.One(0, func(c *Case, _ *Rng) { c04Delays(c, r) })
 	r.One(1, func(c *Case, _ *Rng) {
@@ -862,7 +1008,12 @@ func runC04(r *Run) {
 		c.Nontrivial = true
 		c04Witness(c, r, false, true, 0, 2)
 	})
-	r.Cases(10, r.N(120, 1200), 0, func(c *Case, rng *Rng) { c04Random(c, rng, r) })
+	r.One(3, func(c *Case, _ *Rng) {
+		c.Desc = "corpus: onStartup + grouped/ungrouped Synchronization tasks with mixed allowFailure and executeHookOnSynchronization:false, every run fails once; then kubernetes events"
+		c.Nontrivial = true
+		c04SyncWitness(c, r)
+	})
+	r.Cases(10, r.N(120, 1000), 0, func(c *Case, rng *Rng) { c04Random(c, rng, r) })
 	if r.Thorough() {
 		// exhaustive small scope: layouts of 1..3 schedule tasks of two hooks x allowFailure x failure counts 0..2
 		type cfg struct {
@@ -892,16 +1043,16 @@ func runC04(r *Run) {
 		r.Cases(1000000, len(cfgs), 0, func(c *Case, _ *Rng) {
 			x := cfgs[c.Idx-1000000]
 			hooks := []c04Hook{
-				{Name: "hook01", Num: 1, Queue: 1, Bindings: []c04Binding{{Name: "b2", Num: 2, Crontab: "1 0 1 1 *", AF: false}, {Name: "b3", Num: 3, Crontab: "2 0 1 1 *", AF: true}}},
-				{Name: "hook02", Num: 2, Queue: 1, Bindings: []c04Binding{{Name: "b4", Num: 4, Crontab: "3 0 1 1 *", AF: false}, {Name: "b5", Num: 5, Crontab: "4 0 1 1 *", AF: true}}},
-				{Name: "hook03", Num: 3, Queue: 1, Bindings: []c04Binding{{Name: "b6", Num: 6, Crontab: "5 0 1 1 *"}}},
+				{Name: "hook01", Num: 1, Queue: 1, Bindings: []c04Binding{{Name: "b2", Crontab: "1 0 1 1 *", AF: false}, {Name: "b3", Crontab: "2 0 1 1 *", AF: true}}},
+				{Name: "hook02", Num: 2, Queue: 1, Bindings: []c04Binding{{Name: "b4", Crontab: "3 0 1 1 *", AF: false}, {Name: "b5", Crontab: "4 0 1 1 *", AF: true}}},
+				{Name: "hook03", Num: 3, Queue: 1, Bindings: []c04Binding{{Name: "b6", Crontab: "5 0 1 1 *"}}},
 			}
-			lay := [][2]int{{2, 0}}
+			lay := []c04Ev{{2, 0, false}}
 			for i := 0; i < x.n; i++ {
-				lay = append(lay, [2]int{b01(x.other[i]), b01(x.af[i])})
+				lay = append(lay, c04Ev{b01(x.other[i]), b01(x.af[i]), false})
 			}
 			p := c04Plan{hooks: hooks, boInit: 15 * time.Millisecond, boStep: 5 * time.Millisecond, maxSteps: 20,
-				initial: map[int][][2]int{1: lay}}
+				initial: map[int][]c04Ev{1: lay}}
 			gate := -1
 			p.outcome = func(id, failed int) string {
 				if gate < 0 {
@@ -918,11 +1069,11 @@ func runC04(r *Run) {
 		})
 		r.Extra["exhaustive_scope"] = fmt.Sprintf("all %d scripts: layouts of 1..3 schedule tasks over 2 hooks x allowFailure, every task failing 0..2 times", len(cfgs))
 		// the default back-off once (5 s)
-		r.One(3, func(c *Case, _ *Rng) {
+		r.One(4, func(c *Case, _ *Rng) {
 			c.Desc = "default ExponentialBackoffFn (5 s initial delay), one failure then success"
 			c.Nontrivial = true
-			hooks := []c04Hook{{Name: "hook01", Num: 1, Queue: 1, Bindings: []c04Binding{{Name: "b2", Num: 2, Crontab: "1 0 1 1 *"}}}}
-			p := c04Plan{hooks: hooks, boInit: 0, maxSteps: 10, initial: map[int][][2]int{1: {{0, 0}}}}
+			hooks := []c04Hook{{Name: "hook01", Num: 1, Queue: 1, Bindings: []c04Binding{{Name: "b2", Crontab: "1 0 1 1 *"}}}}
+			p := c04Plan{hooks: hooks, boInit: 0, maxSteps: 10, initial: map[int][]c04Ev{1: {{0, 0, false}}}}
 			p.outcome = func(id, failed int) string {
 				if failed < 1 {
 					return "exit"
